@@ -268,25 +268,14 @@ def setup_tifffile():
     shims.instrument(tf)
 
 
-def h_make_empty_cog(ax, block):
-    """_make_empty_cog itself (TiffWriter recorded, GeoTIFF tag rendering stubbed) for every image
-    shape incl. single-row / single-column images and images smaller than a tile: it returns, the
-    padded shape follows the layout rule, every overview is exactly half of the previous level,
-    and the per-level GeoBoxes keep the origin and double the pixel"""
+def _empty_cog(shape, g, block):
+    """tf._make_empty_cog(shape, uint8, g, blocksize=block) with TiffWriter recorded and the
+    GeoTIFF tag rendering (a rasterio round trip) stubbed; the replay runs it unstubbed"""
     import sys
     import types
 
     import odc.geo.cog._tifffile as tf
-    import odc.geo.geobox as gbx
-    from affine import Affine
 
-    sh = shm()
-    ny, nx = Int("ny", 1, 200), Int("nx", 1, 200)
-    ns = 3
-    shape = {"YX": (ny, nx), "YXS": (ny, nx, ns), "SYX": (2, ny, nx)}[ax]
-    if ax == "SYX":
-        assume(Not(And(ny == 2, nx == 2)))  # (2,2,2) with a 2x2 GeoBox reads either way
-    g = gbx.GeoBox((ny, nx), Affine(rconst(10), 0.0, Real("c"), 0.0, rconst(-10), Real("f")), "epsg:3857")
     conc = symx.concrete_mode()
     seen_gbox = []
     if not conc:
@@ -308,6 +297,74 @@ def h_make_empty_cog(ax, block):
     finally:
         if not conc:
             sys.modules["tifffile"], tf.geotiff_metadata = saved_mod, saved_meta
+    return meta, seen_gbox
+
+
+def h_tile_sources(ax, block):
+    """every full-resolution tile the header announces has a source block to be compressed from:
+    the tile grid of the (padded) level-0 image equals the block grid of the image re-chunked to
+    the tile size (_compress_tiles builds one task per announced tile, reading block (y, x))"""
+    import odc.geo.cog._tifffile as tf
+    import odc.geo.geobox as gbx
+    from affine import Affine
+
+    ny, nx = Int("ny", 1, 4096), Int("nx", 1, 4096)
+    ns = 3
+    shape = {"YX": (ny, nx), "YXS": (ny, nx, ns), "SYX": (2, ny, nx)}[ax]
+    if ax == "SYX":
+        assume(Not(And(ny == 2, nx == 2)))
+    g = gbx.GeoBox((ny, nx), Affine(rconst(10), 0.0, rconst(0), 0.0, rconst(-10), rconst(0)), "epsg:3857")
+    meta, _ = _empty_cog(shape, g, block)
+    if not symx.concrete_mode():
+        ty, tx = meta.tile.y, meta.tile.x
+        ch = meta.chunked
+        # dask contract: an axis of length N re-chunked to c has ceil(N / c) blocks
+        prove("every_level0_tile_has_a_source_block", And(ch.y == (ny + ty - 1) // ty, ch.x == (nx + tx - 1) // tx))
+        return
+    # replay on the real graph builder (dask): every task's source block key is in the graph
+    import dask.base
+    import dask.core
+
+    if not hasattr(dask.base, "quote"):  # environment shim: this dask release moved quote
+        dask.base.quote = dask.core.quote
+    from odc.geo.xr import xr_zeros
+
+    xx = xr_zeros(g, dtype="uint8", chunks=(128, 128))
+    if ax == "YXS":
+        import xarray as xr
+
+        xx = xr.concat([xx] * ns, dim="band").transpose("y", "x", "band")
+    elif ax == "SYX":
+        import xarray as xr
+
+        xx = xr.concat([xx] * 2, dim="band")
+    bag = tf._compress_tiles(xx, meta)
+    graph = dict(bag.__dask_graph__())
+    missing = [t[2] for k, t in graph.items() if isinstance(k, tuple) and str(k[0]).startswith("compress") and t[2] not in graph]
+    prove("every_level0_tile_has_a_source_block", not missing)
+
+
+def h_make_empty_cog(ax, block):
+    """_make_empty_cog itself (TiffWriter recorded, GeoTIFF tag rendering stubbed) for every image
+    shape incl. single-row / single-column images and images smaller than a tile: it returns, the
+    padded shape follows the layout rule, every overview is exactly half of the previous level,
+    and the per-level GeoBoxes keep the origin and double the pixel"""
+    import sys
+    import types
+
+    import odc.geo.cog._tifffile as tf
+    import odc.geo.geobox as gbx
+    from affine import Affine
+
+    sh = shm()
+    ny, nx = Int("ny", 1, 200), Int("nx", 1, 200)
+    ns = 3
+    shape = {"YX": (ny, nx), "YXS": (ny, nx, ns), "SYX": (2, ny, nx)}[ax]
+    if ax == "SYX":
+        assume(Not(And(ny == 2, nx == 2)))  # (2,2,2) with a 2x2 GeoBox reads either way
+    g = gbx.GeoBox((ny, nx), Affine(rconst(10), 0.0, Real("c"), 0.0, rconst(-10), Real("f")), "epsg:3857")
+    conc = symx.concrete_mode()
+    meta, seen_gbox = _empty_cog(shape, g, block)
     want_shape, want_tile, n = sh.compute_cog_spec((ny, nx), sh.norm_blocksize(block))
     levels = meta.flatten()
     prove("one_level_per_overview", len(levels) == n + 1)
@@ -422,5 +479,10 @@ OBLIGATIONS = [
        descr="_make_empty_cog on every image shape (single-row/column and narrower-than-a-tile included): returns; padded shape per layout rule; overviews exactly half; per-level GeoBoxes; one page per level with the level's shape and tile",
        functions=("odc.geo.cog._tifffile._make_empty_cog", "odc.geo.cog._shared.compute_cog_spec", "odc.geo.types.Shape2d.shrink2", "odc.geo.geobox.GeoBox.zoom_to", "odc.geo.geobox.GeoBox.expand"),
        bounds="image sides 1..200, block from grid (16/32/64), layouts YX / YXS(3) / SYX(2)", stubs=("tifffile.TiffWriter recorder", "geotiff_metadata (rasterio round trip) recorder"), setup=setup_tifffile, timeout_ms=20000),
+    Ob("L10_tile_sources", h_tile_sources, tiered([dict(ax="YX", block=16)], [dict(ax=a, block=b) for a in ("YX", "YXS", "SYX") for b in (16, 64, 256)]),
+       descr="every full-resolution tile announced by the header has a source block in the image re-chunked to the tile size (padding must not add a whole tile row/column that nothing fills)",
+       functions=("odc.geo.cog._tifffile._make_empty_cog", "odc.geo.cog._shared.CogMeta.chunked", "odc.geo.cog._tifffile._compress_tiles"),
+       bounds="image sides 1..4096, block from grid", stubs=("tifffile.TiffWriter recorder", "geotiff_metadata recorder", "dask re-chunk contract: ceil(N/c) blocks per axis (the replay builds the real dask graph; dask.base.quote aliased to dask.core.quote, which this dask release moved)"),
+       setup=setup_tifffile, timeout_ms=20000),
     Ob("L6_cog_gbox_tile", h_cog_gbox_tile, fixed(), descr="cog_gbox(tile=): shape from the layout rule, grid unchanged", functions=("odc.geo.cog._shared.cog_gbox",), setup=setup, timeout_ms=20000),
 ]
